@@ -1,0 +1,30 @@
+package formula
+
+import "github.com/ericlagergren/decimal"
+
+// belowOneTenth reports a finite, non-zero number of magnitude below 0.1. Rounding
+// such a number to a whole one needs none of its digits - which matters for
+// numbers like 1e-99999999, whose digits the rounding routines would write out.
+func belowOneTenth(v *decimal.Big) bool {
+	return v != nil && v.IsFinite() && v.Sign() != 0 && v.Precision()-v.Scale() < 0
+}
+
+// wholeNear is the whole number next to a number below one tenth in magnitude:
+// one step away from zero if away is set, zero (with the number's sign) otherwise.
+func wholeNear(v *decimal.Big, away bool) *decimal.Big {
+	n := newDecimalBig()
+	if away {
+		n.SetMantScale(1, 0)
+	}
+	return n.CopySign(n, v)
+}
+
+// remainder is x % y. A dividend that is smaller in magnitude than the divisor
+// and written with the lower exponent is its own remainder; taking it as it is
+// keeps numbers of very different exponents from being aligned digit by digit.
+func remainder(x, y *decimal.Big) *decimal.Big {
+	if x.IsFinite() && y.IsFinite() && x.Sign() != 0 && y.Sign() != 0 && x.Scale() >= y.Scale() && x.CmpAbs(y) < 0 {
+		return newDecimalBig().Set(x)
+	}
+	return newDecimalBig().Rem(x, y)
+}
